@@ -5,6 +5,7 @@ import Nstd.Rc.Frame
 import Nstd.Rc.PtrTotal
 import Nstd.Rc.NestedLemmas
 import Nstd.Rc.PtrStale
+import Nstd.Rc.Leak
 /-
   Property C09: shared payloads are released exactly once, after their last handle.
 
@@ -36,8 +37,10 @@ namespace Nstd.Rc
   cross-kind calls `Variant = String variable` / `String = variant.toString()` are not in the correspondence; boxed
   elements of array / map payloads and Xml attributes (same container code, not driven); totality of the nested calls
   (`apiRunN … = some s` is a hypothesis: fuel of the cascade, fewer than `maxBlocks` allocations, at most `famK` boxed
-  elements per payload in the drivers' layout) and "no handle is left in a released block" (cascade completeness) are
-  validated by the correspondence run (ledger: `live`, `end live=0`) and the examples only.
+  elements per payload in the drivers' layout) is validated by the correspondence run and the examples only; cascade
+  completeness (`nested_no_leak`, `mt_no_leak_quiescent`) excludes `d->next = s` (`pLink`: on a SHARED object it stores into
+  an embedded slot without holding the only handle — a caller-side data race in the multi-threaded reading, single-threaded
+  it needs a frame argument that is not done).
 -/
 
 /-- multi-threaded safety: in every reachable state, for every schedule and all programs -/
@@ -394,6 +397,88 @@ theorem nested_no_inplace_write_while_shared {n tid : Nat} {ops : List NOp} {s :
 theorem nested_states_reachable {n tid : Nat} {ops : List NOp} {s s1 : St} {acts : List Act} {fuel : Nat}
     (h : apiRunN (init n) tid ops = some s) (h1 : runC fuel s tid acts = some s1) : Reach n s1 :=
   reach_runC _ _ (reach_apiRunN ops Reach.init h) h1
+
+/-- cascade completeness, no leak through nesting: after every history of calls on the 16 variables (all calls of
+    Model.lean / Nested.lean except `d->next = s`, see `idxOkN`) no handle is left inside a released block — the release of
+    the last handle of a container has released every handle embedded in it —, no live block is without a handle (an inner
+    payload whose count reached zero is itself released), hence every counted handle sits in a variable / temporary or
+    inside a LIVE payload -/
+theorem nested_no_leak {n : Nat} {ops : List NOp} {s : St} (hi : ∀ op, op ∈ ops → idxOkN op)
+    (h : apiRunN (init n) 0 ops = some s) :
+    (∀ c k, c < maxBlocks → embSlotK c k < s.n → s.heap c = none → (s.slots (embSlotK c k)).isBlk = false)
+    ∧ (∀ b blk, s.heap b = some blk → 0 < handles s b)
+    ∧ (∀ v b, v < s.n → s.slots v = .blk b → v < embBase ∨ s.heap (enclOf v) ≠ none) := by
+  have no := apiRunN_no_orphan ops Reach.init (by decide) hi (init_no_orphan n) h
+  refine ⟨?_, ?_, ?_⟩
+  · intro c k hc hk hd
+    cases hb : (s.slots (embSlotK c k)).isBlk with
+    | false => rfl
+    | true =>
+      exfalso
+      refine no (embSlotK c k) ⟨by simp only [embSlotK]; omega, hk, hb, ?_⟩
+      rw [enclOf_embSlotK hc]; exact hd
+  · intro b blk hb
+    obtain ⟨h1, h2⟩ := nested_ref_counts_handles h b blk hb
+    omega
+  · intro v b hv hsl
+    by_cases x : v < embBase
+    · left; exact x
+    · right
+      intro hd
+      exact no v ⟨by omega, hv, by rw [hsl]; rfl, hd⟩
+
+/-- the same for ANY number of threads under ANY interleaving (`SReach`: every thread runs step lists that receive
+    handles only into its top-level slots — all calls except `d->next = s` —, each step with the destructor cascade):
+    in every state of the interleaved system every handle left in a released block has its decrement pending in the step
+    list of some thread (the one that adopted it) … -/
+theorem mt_orphans_pending {n : Nat} {S : Sys} (h : SReach n S) (e : Nat) (he : embBase ≤ e) (hn : e < S.st.n)
+    (hb : (S.st.slots e).isBlk = true) (hd : S.st.heap (enclOf e) = none) : ∃ t, Act.dec e ∈ S.pend t :=
+  (sreach_inv h).2.2 e ⟨he, hn, hb, hd⟩
+
+/-- … so whenever no thread is inside a call, no released block contains a handle; the states of the interleaved system
+    are reachable states of the step system, so `mt_safe` etc. hold in them as well -/
+theorem mt_no_leak_quiescent {n : Nat} {S : Sys} (h : SReach n S) (hq : ∀ t, S.pend t = []) :
+    Reach n S.st
+    ∧ (∀ c k, c < maxBlocks → embSlotK c k < S.st.n → S.st.heap c = none → (S.st.slots (embSlotK c k)).isBlk = false)
+    ∧ (∀ v b, v < S.st.n → S.st.slots v = .blk b → v < embBase ∨ S.st.heap (enclOf v) ≠ none) := by
+  obtain ⟨r, _, p⟩ := sreach_inv h
+  have no : ∀ e, ¬ Orphan S.st e := by
+    intro e ho
+    obtain ⟨t, ht⟩ := p e ho
+    rw [hq t] at ht; cases ht
+  refine ⟨r, ?_, ?_⟩
+  · intro c k hc hk hd
+    cases hb : (S.st.slots (embSlotK c k)).isBlk with
+    | false => rfl
+    | true =>
+      exfalso
+      refine no (embSlotK c k) ⟨by simp only [embSlotK]; omega, hk, hb, ?_⟩
+      rw [enclOf_embSlotK hc]; exact hd
+  · intro v b hv hsl
+    by_cases x : v < embBase
+    · left; exact x
+    · right
+      intro hd
+      exact no v ⟨by omega, hv, by rw [hsl]; rfl, hd⟩
+
+/-- non-vacuity of the interleaved system: thread 0 builds a list holding a boxed Variant and hands the list variable
+    to thread 1, which releases it; in the middle of the cascade (list box deleted, element not yet released) the
+    embedded handle is an orphan with its decrement pending, at the end nothing is left -/
+example : ∃ S, SReach nTotal S ∧ S.st.heap 1 = none ∧ S.st.slots (embSlotK 1 0) = .blk 0 ∧ S.st.freed 0 = 0
+    ∧ S.pend 1 = [.dec (embSlotK 1 0), .free, .clr (embSlotK 1 0), .clr 5] := by
+  have l0 : LowRecv [Act.alloc 4 tagVStr [97] 0, .alloc 5 tagVList [0] 0, .move 17 4, .putE 1 0 17 5, .give 5 1] :=
+    lowRecv_of_B (by decide)
+  have l1 : LowRecv (rel 5) := lowRecv_of_B (by decide)
+  have s0 := SReach.call (tid := 0) (SReach.init (n := nTotal)) rfl l0
+  have s1 := SReach.step (tid := 0) s0 (s1 := _) (r1 := _) rfl
+  have s2 := SReach.step (tid := 0) s1 (s1 := _) (r1 := _) rfl
+  have s3 := SReach.step (tid := 0) s2 (s1 := _) (r1 := _) rfl
+  have s4 := SReach.step (tid := 0) s3 (s1 := _) (r1 := _) rfl
+  have s5 := SReach.step (tid := 0) s4 (s1 := _) (r1 := _) rfl
+  have s6 := SReach.call (tid := 1) s5 rfl l1
+  have s7 := SReach.step (tid := 1) s6 (s1 := _) (r1 := _) rfl
+  have s8 := SReach.step (tid := 1) s7 (s1 := _) (r1 := _) rfl
+  exact ⟨_, s8, rfl, rfl, rfl, rfl⟩
 
 /-- non-vacuity (Variant variables are slots 4..7): V0 = "a" (box 0); V1 = [V0] (list box 1 holding a handle to box 0);
     V2 = V1 shares the list box; mutable access to V2 clones the list box (box 2) and INCREMENTS the inner payload:
